@@ -847,109 +847,78 @@ theorem C14_guards_array (da : DataArray) (d : Dim) (labels : List Str) (n idx :
     rw [h']
     simp only [List.append_assoc]
 
-/-- `check_tag`: the six sites whose conditions compile (missing position — a position of zeros is a position —,
-position / extent lengths, position and extent length against the rank of every reference, unit count against the
-references' descriptors, non-SI unit) fire exactly when the model reports them; `position` / `extent` are the stored
+/-- `check_tag`: ALL seven sites (missing position — a position of zeros is a position —, position / extent
+lengths, position and extent length against the rank of every reference, unit count against the references'
+descriptors, convertibility — the verdict helper inlined —, non-SI unit): the identifiers that fire, in source order,
+between the entity messages and the feature messages, ARE the model's `checkTag`; `position` / `extent` are the stored
 tuples, of which the description keeps the lengths -/
 theorem C14_guards_tag (position extent : List Rat) (arrays : List DataArray) (t : Tag)
     (hp : position.length = t.posLen) (he : extent.length = t.extLen) :
     ∃ ids, fired (tagEnv position extent t.units t.refs.length (refArrays arrays t.refs)) guards_check_tag = .ok ids ∧
-      ∀ k ∈ [MsgId.NoPosition, .PositionExtentMismatch, .PositionDimensionMismatch, .ExtentDimensionMismatch,
-             .ReferenceUnitsMismatch, .InvalidUnit],
-        (k ∈ ids ↔ .plain k ∈ checkTag arrays t) := by
+      checkTag arrays t = checkEntity t.ent ++ ids.map Msg.plain ++ featLoop arrays 0 t.features := by
   refine ⟨_, guards_tag position extent arrays t hp he, ?_⟩
-  intro k hk
-  have hne : ∀ {P : DataArray → Prop}, (∃ da ∈ refArrays arrays t.refs, P da) → t.refs ≠ [] := by
-    rintro P ⟨da, hda, -⟩ h; simp [refArrays, h] at hda
-  simp only [List.mem_cons, List.not_mem_nil, or_false] at hk
-  rcases hk with rfl | rfl | rfl | rfl | rfl | rfl
-  · rw [C14_complete_NoPosition]; simp
-  · rw [C14_complete_PositionExtentMismatch]; simp
-  · rw [C14_complete_PositionDimensionMismatch]
-    simp only [List.mem_append, List.mem_ite_nil_right, List.mem_singleton, reduceCtorEq, and_false, false_or,
-      or_false, Bool.and_eq_true, Bool.not_eq_true', List.isEmpty_eq_false_iff, List.any_eq_true,
-      bne_iff_ne, ne_eq, and_true]
-    exact ⟨fun h => h.2, fun h => ⟨hne h, h⟩⟩
-  · rw [C14_complete_ExtentDimensionMismatch]
-    simp only [List.mem_append, List.mem_ite_nil_right, List.mem_singleton, reduceCtorEq, and_false, false_or,
-      or_false, Bool.and_eq_true, Bool.not_eq_true', List.isEmpty_eq_false_iff, List.any_eq_true,
-      bne_iff_ne, ne_eq, and_true]
-    exact ⟨fun h => h.2, fun h => ⟨hne h.2, h⟩⟩
-  · rw [C14_complete_ReferenceUnitsMismatch]
-    simp only [List.mem_append, List.mem_ite_nil_right, List.mem_singleton, reduceCtorEq, and_false, false_or,
-      or_false, Bool.and_eq_true, Bool.not_eq_true', List.isEmpty_eq_false_iff, List.any_eq_true,
-      List.mem_map, bne_iff_ne, ne_eq, UnitsLenMismatch, and_true]
-    constructor
-    · rintro ⟨-, ru, ⟨da, hda, rfl⟩, h⟩; exact ⟨da, hda, h⟩
-    · rintro ⟨da, hda, h⟩; exact ⟨hne (P := fun _ => True) ⟨da, hda, trivial⟩, _, ⟨da, hda, rfl⟩, h⟩
-  · rw [C14_complete_InvalidUnit, ← anyNonSi_iff]; simp
+  unfold checkTag refUnitMsgs
+  simp only [List.map_append, List.append_assoc, List.append_cancel_left_eq, List.append_cancel_right_eq]
+  generalize (t.posLen == 0) = c1
+  generalize (t.extLen != 0 && t.extLen != t.posLen) = c2
+  generalize ((refArrays arrays t.refs).any fun da => t.posLen != da.shape.length) = c3
+  generalize ((refArrays arrays t.refs).any fun da => t.extLen != da.shape.length) = c4
+  generalize ((List.map getDimUnits (refArrays arrays t.refs)).any fun ru => ru.length != t.units.length) = c5
+  generalize unitsMatch t.units (List.map getDimUnits (refArrays arrays t.refs)) = c6
+  generalize anyNonSi t.units = c7
+  generalize (t.extLen != 0) = e
+  generalize t.refs.isEmpty = r
+  cases c1 <;> cases c2 <;> cases r <;> cases c3 <;> cases e <;> cases c4 <;> cases c5 <;> cases c6 <;> cases c7 <;> rfl
 
-/-- `check_multi_tag`, for a multi-tag whose shape reads return (linked arrays of rank ≥ 1): missing positions — no
-link, or a linked array without entries —, positions / extents shapes, entries per position / extent against the rank
-of every reference, unit count, non-SI unit -/
+/-- `check_multi_tag`, for a multi-tag whose shape reads return (linked arrays of rank ≥ 1): ALL seven sites (missing
+positions — no link, or a linked array without entries —, positions / extents shapes, entries per position / extent
+against the rank of every reference, unit count, convertibility, non-SI unit) fire as the model reports -/
 theorem C14_guards_multi_tag (arrays : List DataArray) (t : MultiTag)
     (hp : ∀ sh, MtPosShape arrays t = some sh → sh ≠ []) (he : ∀ sh, MtExtShape arrays t = some sh → sh ≠ []) :
     ∃ ids, fired (mtagEnv (MtPosShape arrays t) (MtExtShape arrays t) t.units t.refs.length (refArrays arrays t.refs))
         guards_check_multi_tag = .ok ids ∧
-      ∀ k ∈ [MsgId.NoPositions, .PositionsExtentsMismatch, .PositionsDimensionMismatch, .ExtentsDimensionMismatch,
-             .ReferenceUnitsMismatch, .InvalidUnit],
-        (k ∈ ids ↔ .plain k ∈ checkMultiTag arrays t) := by
+      checkMultiTag arrays t = checkEntity t.ent ++ ids.map Msg.plain ++ featLoop arrays 0 t.features := by
   refine ⟨_, guards_multi_tag arrays t hp he, ?_⟩
-  intro k hk
-  have hne : ∀ {P : DataArray → Prop}, (∃ da ∈ refArrays arrays t.refs, P da) → t.refs ≠ [] := by
-    rintro P ⟨da, hda, -⟩ h; simp [refArrays, h] at hda
-  simp only [List.mem_cons, List.not_mem_nil, or_false] at hk
-  rcases hk with rfl | rfl | rfl | rfl | rfl | rfl
-  · rw [C14_complete_NoPositions]
-    cases hps : MtPosShape arrays t <;> simp
-  · rw [C14_complete_PositionsExtentsMismatch]
-    cases hes : MtExtShape arrays t <;> cases hps : MtPosShape arrays t <;> simp [pemFlag]
-  · rw [C14_complete_PositionsDimensionMismatch]
-    simp only [List.mem_append, List.mem_ite_nil_right, List.mem_singleton, reduceCtorEq, and_false, false_or,
-      or_false, Bool.and_eq_true, Bool.not_eq_true', List.isEmpty_eq_false_iff, List.any_eq_true,
-      bne_iff_ne, ne_eq, and_true, pdmFlag, Option.isSome_iff_ne_none]
-    exact ⟨fun h => h.2, fun h => ⟨hne h.2, h⟩⟩
-  · rw [C14_complete_ExtentsDimensionMismatch]
-    cases hes : MtExtShape arrays t with
-    | none => simp [edmFlag]
-    | some es =>
-      simp only [List.mem_append, List.mem_ite_nil_right, List.mem_singleton, reduceCtorEq, and_false, false_or,
-        or_false, Bool.and_eq_true, Bool.not_eq_true', List.isEmpty_eq_false_iff, List.any_eq_true,
-        bne_iff_ne, ne_eq, and_true, edmFlag, Option.some.injEq, exists_eq_left']
-      exact ⟨fun h => h.2, fun h => ⟨hne h.2, h⟩⟩
-  · rw [(C14_complete_mtag_units arrays t).1]
-    simp only [List.mem_append, List.mem_ite_nil_right, List.mem_singleton, reduceCtorEq, and_false, false_or,
-      or_false, Bool.and_eq_true, Bool.not_eq_true', List.isEmpty_eq_false_iff, List.any_eq_true,
-      List.mem_map, bne_iff_ne, ne_eq, UnitsLenMismatch, and_true]
-    constructor
-    · rintro ⟨-, ru, ⟨da, hda, rfl⟩, h⟩; exact ⟨da, hda, h⟩
-    · rintro ⟨da, hda, h⟩; exact ⟨hne (P := fun _ => True) ⟨da, hda, trivial⟩, _, ⟨da, hda, rfl⟩, h⟩
-  · rw [(C14_complete_mtag_units arrays t).2.2, ← anyNonSi_iff]; simp
+  unfold checkMultiTag refUnitMsgs MtPosShape MtExtShape
+  simp only [List.map_append, List.append_assoc, List.append_cancel_left_eq, List.append_cancel_right_eq]
+  generalize (Option.map (fun x => x.shape) (t.positions.bind fun k => arrays[k]?)) = ps
+  generalize (Option.map (fun x => x.shape) (t.extents.bind fun k => arrays[k]?)) = es
+  generalize ((List.map getDimUnits (refArrays arrays t.refs)).any fun ru => ru.length != t.units.length) = c5
+  generalize unitsMatch t.units (List.map getDimUnits (refArrays arrays t.refs)) = c6
+  generalize anyNonSi t.units = c7
+  generalize (ps.isNone || ps.bind firstLen == some 0) = c1
+  cases es with
+  | none =>
+    simp only [pemFlag, edmFlag, pdmFlag]
+    by_cases hr : t.refs.isEmpty = true <;>
+    by_cases ha : ps.isSome = true <;>
+    by_cases h3 : ((refArrays arrays t.refs).any fun da => ps.bind secondDim != some da.shape.length) = true <;>
+    simp only [hr, ha, h3, Bool.not_true, Bool.not_false, Bool.false_and, Bool.true_and, Bool.and_false, Bool.and_true] <;>
+    cases c1 <;> cases c5 <;> cases c6 <;> cases c7 <;> simp
+  | some e =>
+    simp only [pemFlag, edmFlag, pdmFlag]
+    by_cases hr : t.refs.isEmpty = true <;>
+    by_cases ha : ps.isSome = true <;>
+    by_cases hb : (ps != some e) = true <;>
+    by_cases h3 : ((refArrays arrays t.refs).any fun da => ps.bind secondDim != some da.shape.length) = true <;>
+    by_cases hf : (firstLen e != some 0) = true <;>
+    by_cases h4 : ((refArrays arrays t.refs).any fun da => secondDim e != some da.shape.length) = true <;>
+    simp only [hr, ha, hb, h3, hf, h4, Bool.not_true, Bool.not_false, Bool.false_and, Bool.true_and, Bool.and_false,
+      Bool.and_true] <;>
+    cases c1 <;> cases c5 <;> cases c6 <;> cases c7 <;> simp
 
-/-- the ONE site per function that is not compiled: `not tag_units_match_refs_units(...)` calls the verdict helper, which
-stays tied by `C14_shape_helpers` (its statements) and the differential runs; every other site of every function is
-compiled and covered by a `C14_guards_*` theorem -/
+/-- every report site of every check function is compiled (the verdict helper `tag_units_match_refs_units` is inlined
+at its two calls): nothing is tied by text alone -/
 theorem C14_guards_opaque :
-    opaque_check_tag = [.ReferenceUnitsIncompatible] ∧ opaque_check_multi_tag = [.ReferenceUnitsIncompatible] ∧
+    opaque_check_tag = [] ∧ opaque_check_multi_tag = [] ∧
     opaque_check_file = [] ∧ opaque_check_entity = [] ∧ opaque_check_feature = [] ∧ opaque_check_property = [] ∧
-    opaque_check_data_array = [] ∧ opaque_check_range_dimension = [] ∧ opaque_check_sampled_dimension = [] := by
+    opaque_check_data_array = [] ∧ opaque_check_range_dimension = [] ∧ opaque_check_sampled_dimension = [] ∧
+    inlinedHelpers = ["tag_units_match_refs_units"] := by
   decide
 
-/-- compiled + opaque sites are all the report sites of the source, function by function (source order; the opaque
-site of the two tag functions sits before `InvalidUnit`) -/
+/-- the compiled sites are all the report sites of the source, function by function, in source order -/
 theorem C14_guards_cover :
-    reportSites.map (fun s => (s.1, s.2.1)) =
-      (guards_check_file.map fun g => ("check_file", g.1)) ++
-      ((guards_check_data_array.map fun g => ("check_data_array", g.1)) ++
-      ((((guards_check_tag.map (·.1)).take 5 ++ opaque_check_tag ++ (guards_check_tag.map (·.1)).drop 5).map
-          fun k => ("check_tag", k)) ++
-      ((((guards_check_multi_tag.map (·.1)).take 5 ++ opaque_check_multi_tag ++
-          (guards_check_multi_tag.map (·.1)).drop 5).map fun k => ("check_multi_tag", k)) ++
-      ((guards_check_feature.map fun g => ("check_feature", g.1)) ++
-      ((guards_check_property.map fun g => ("check_property", g.1)) ++
-      ((guards_check_range_dimension.map fun g => ("check_range_dimension", g.1)) ++
-      ((guards_check_sampled_dimension.map fun g => ("check_sampled_dimension", g.1)) ++
-      (guards_check_entity.map fun g => ("check_entity", g.1))))))))) := by
+    reportSites.map (fun s => (s.1, s.2.1)) = guardTable.flatMap fun f => f.2.map fun g => (f.1, g.1) := by
   decide
 
 /-- the locals the compiled conditions read, and the statements that assign them: `positions` / `file_created_at` are
